@@ -558,6 +558,9 @@ func TestVerifC18(t *testing.T) {
 	if shard == 1%shardsOfC18() {
 		c18PluginNumbers(t, r, dir)
 	}
+	if shard == 2%shardsOfC18() {
+		c18Boundaries(t, r, dir)
+	}
 	c18Binary(t, r, dir)
 }
 
@@ -617,5 +620,75 @@ func c18PluginNumbers(t *testing.T, r *vres.Report, dir string) {
 	r.AddScenario(vres.Scenario{Name: "plugin-number-spellings", Engine: "W", Evaluations: evals, Distinct: int64(outs.N()), Outcomes: outs.N(),
 		Rule:  "one evaluation = one configuration file loaded with the real LoadConfig and built like main() does; distinct = (option, presented as valid, accepted) classes",
 		Bound: "4 numeric plugin options x every listed spelling (integers up to 2^31, zero-fraction floats, exponent notation, hex / octal / underscore integers) + the values each option documents as invalid", Exhaustive: true,
+		Extra: map[string]interface{}{"wall_s": time.Since(start).Seconds()}})
+}
+
+// c18Boundaries: every documented numeric constraint at its edges, one field at a time over an
+// otherwise valid file: the last invalid value, the first valid one, its neighbour, and for
+// bounded ranges the last valid value and the first invalid one above it.
+func c18Boundaries(t *testing.T, r *vres.Report, dir string) {
+	start := time.Now()
+	var evals int64
+	var outs vres.Outcomes
+	type field struct {
+		name string
+		tmpl string // YAML fragment with one %d
+		lo   int    // smallest valid value
+		hi   int    // largest valid value (0 = unbounded)
+	}
+	fields := []field{
+		{"server.port", "server:\n  port: %d\n", 1, 65535},
+		{"metrics.port", "metrics:\n  enabled: true\n  port: %d\n  path: /metrics\n", 1, 65535},
+		{"admin_api.port", "admin_api:\n  enabled: true\n  port: %d\n", 1, 65535},
+		{"backends.weight", "backends:\n  - name: base1\n    address: http://127.0.0.1:9\n    weight: %d\n", 0, 0},
+		{"websocket_pool.max_idle", "load_balancer:\n  websocket_pool:\n    enabled: true\n    max_idle: %d\n", 0, 0},
+		{"websocket_pool.max_active", "load_balancer:\n  websocket_pool:\n    enabled: true\n    max_active: %d\n", 0, 0},
+		{"websocket_pool.idle_timeout_seconds", "load_balancer:\n  websocket_pool:\n    enabled: true\n    idle_timeout_seconds: %d\n", 0, 0},
+		{"websocket_pool.max_idle (max_active 5)", "load_balancer:\n  websocket_pool:\n    enabled: true\n    max_active: 5\n    max_idle: %d\n", 0, 5},
+		{"active.interval (timeout 1)", "health_checks:\n  active:\n    enabled: true\n    timeout: 1\n    path: /health\n    interval: %d\n", 2, 0},
+		{"active.timeout (interval 4)", "health_checks:\n  active:\n    enabled: true\n    interval: 4\n    path: /health\n    timeout: %d\n", 1, 3},
+		{"passive.unhealthy_threshold", "health_checks:\n  passive:\n    enabled: true\n    unhealthy_timeout: 30\n    unhealthy_threshold: %d\n", 1, 0},
+		{"passive.unhealthy_timeout", "health_checks:\n  passive:\n    enabled: true\n    unhealthy_threshold: 3\n    unhealthy_timeout: %d\n", 1, 0},
+		{"rate_limit.max_tokens", "rate_limit:\n  enabled: true\n  refill_rate_seconds: 1\n  max_tokens: %d\n", 1, 0},
+		{"rate_limit.refill_rate_seconds", "rate_limit:\n  enabled: true\n  max_tokens: 10\n  refill_rate_seconds: %d\n", 1, 0},
+		{"circuit_breaker.failure_threshold", "circuit_breaker:\n  enabled: true\n  success_threshold: 1\n  timeout_seconds: 5\n  interval_seconds: 5\n  failure_threshold: %d\n", 1, 0},
+		{"circuit_breaker.success_threshold", "circuit_breaker:\n  enabled: true\n  failure_threshold: 1\n  timeout_seconds: 5\n  interval_seconds: 5\n  success_threshold: %d\n", 1, 0},
+		{"circuit_breaker.timeout_seconds", "circuit_breaker:\n  enabled: true\n  failure_threshold: 1\n  success_threshold: 1\n  interval_seconds: 5\n  timeout_seconds: %d\n", 1, 0},
+		{"circuit_breaker.interval_seconds", "circuit_breaker:\n  enabled: true\n  failure_threshold: 1\n  success_threshold: 1\n  timeout_seconds: 5\n  interval_seconds: %d\n", 1, 0},
+		{"circuit_breaker.max_requests", "circuit_breaker:\n  enabled: true\n  failure_threshold: 1\n  success_threshold: 1\n  timeout_seconds: 5\n  interval_seconds: 5\n  max_requests: %d\n", 0, 0},
+	}
+	for _, tn := range []string{"read", "write", "idle", "handler", "shutdown", "backend_dial", "backend_read", "backend_idle"} {
+		fields = append(fields, field{"server.timeouts." + tn, "server:\n  timeouts:\n    " + tn + ": %d\n", 0, 0})
+	}
+	for _, f := range fields {
+		vals := map[int]bool{f.lo - 1: false, f.lo: true, f.lo + 1: true}
+		if f.hi > 0 {
+			vals[f.hi-1], vals[f.hi], vals[f.hi+1] = f.hi-1 >= f.lo, true, false
+		} else {
+			vals[f.lo+1000] = true
+		}
+		for v, valid := range vals {
+			y, err := mergeYAML(c18Base, fmt.Sprintf(f.tmpl, v))
+			if err != nil {
+				t.Fatal(err)
+			}
+			evals++
+			cfg, err := c18Load(dir, "edge.yaml", y)
+			if err == nil && valid {
+				// a value the documentation allows must also start
+				err = c18Build(cfg)
+			}
+			outs.Add(fmt.Sprintf("%s/%v/%v", f.name, valid, err == nil))
+			if valid && err != nil {
+				r.Violate("C18/valid-configuration-rejected/boundary/"+f.name, fmt.Sprintf("%s = %d is inside the documented range but the configuration is refused: %v", f.name, v, err), 5, map[string]interface{}{"yaml": y})
+			}
+			if !valid && err == nil {
+				r.Violate("C18/invalid-configuration-accepted/boundary/"+f.name, fmt.Sprintf("%s = %d is outside the documented range but LoadConfig accepts the file", f.name, v), 5, map[string]interface{}{"yaml": y})
+			}
+		}
+	}
+	r.AddScenario(vres.Scenario{Name: "constraint-boundaries", Engine: "W", Evaluations: evals, Distinct: int64(outs.N()), Outcomes: outs.N(),
+		Rule:  "one evaluation = one file (minimal valid base + one field at an edge of its documented range) loaded with the real LoadConfig and, if valid, built like main() does; distinct = (field, valid, accepted) classes",
+		Bound: fmt.Sprintf("%d numeric fields x {lo-1, lo, lo+1} and, where bounded, {hi-1, hi, hi+1}", len(fields)), Exhaustive: true,
 		Extra: map[string]interface{}{"wall_s": time.Since(start).Seconds()}})
 }
